@@ -85,6 +85,8 @@ def trace(T):
 
 
 def eye(w, size):
+    if isinstance(w, JaxDiscreteField):
+        w = w.value
     return jnp.array([[w if i == j else 0. * w
                        for i in range(size)]
                      for j in range(size)])
